@@ -182,7 +182,7 @@ class Ctx:
             self._solver_types = _solver_exc_types()
         return self._solver_types
 
-    def call(self, fn, *args, monitor=None, solver=False, expect=(), mech_prefix=None, mech=None, **kwargs):
+    def call(self, fn, *args, monitor=None, solver=False, expect=(), mech_prefix=None, mech=None, freeze=None, **kwargs):
         """Call a library function inside the property's quantifier.
 
         * an exception listed in ``expect`` is returned (documented rejection);
@@ -192,6 +192,17 @@ class Ctx:
         """
         name = getattr(fn, "__qualname__", getattr(fn, "__name__", repr(fn)))
         monitor = monitor or ("call:" + name)
+        frozen = freeze is not False and FREEZE != "0" and (FREEZE == "1" or getattr(self, "freeze_case", False))
+        if frozen:
+            # read-only copies of every array argument: a write into a caller's array raises instead of passing silently
+            args = tuple(_freeze(a) for a in args)
+            kwargs = {k: _freeze(v) for k, v in kwargs.items()}
+            self.evals["hostile:read-only-arguments"] += 1
+        watch = freeze is not False and not frozen and ARGWATCH
+        if watch:
+            from . import snap
+
+            before = (snap.plain_digest(args), snap.plain_digest(kwargs))
         limit = self.solver_time_limit if solver else None
         remaining = 0
         t0 = time.monotonic()
@@ -199,7 +210,12 @@ class Ctx:
             remaining = signal.alarm(0)  # pause the case watchdog, arm the per-solve one
             signal.alarm(int(limit))
         try:
-            return fn(*args, **kwargs)
+            out = fn(*args, **kwargs)
+            if watch:
+                self.evals["hostile:arguments-digest"] += 1
+                if (snap.plain_digest(args), snap.plain_digest(kwargs)) != before:
+                    self.fail(monitor, f"{name}:modifies-caller-argument", {"args-after": enc(args), "kwargs-after": enc(kwargs)})
+            return out
         except CaseTimeout:
             if limit and time.monotonic() - t0 >= limit - 1:
                 # the solver did not return within the per-solve budget: instance-level inconclusive
@@ -214,6 +230,8 @@ class Ctx:
                 return FAILED
             site = raise_site(exc)
             key = mech or f"raise:{mech_prefix or name}:{type(exc).__name__}@{site}"
+            if frozen and isinstance(exc, ValueError) and "read-only" in str(exc):
+                key = f"{site}:writes-into-caller-array"
             self.fail(monitor, key, {"exception": repr(exc)[:300], "args": enc(args), "kwargs": enc(kwargs), "site": site,
                                       "trace": traceback.format_exc()[-1500:]})
             return FAILED
@@ -224,6 +242,25 @@ class Ctx:
                     signal.alarm(max(1, int(remaining - (time.monotonic() - t0))))
 
 
+ARGWATCH = os.environ.get("VMON_ARGWATCH", "1") != "0"  # digest plain-data arguments before / after every library call
+FREEZE = os.environ.get("VMON_FREEZE", "")  # "1": every call, "0": never, default: the cases the runner selects (one in four)
+
+
+def _freeze(obj):
+    """Read-only copies of every array argument (lists, tuples and dicts are rebuilt around them)."""
+    if isinstance(obj, np.ndarray) and obj.dtype != object:
+        out = obj.copy()
+        out.setflags(write=False)
+        return out
+    if isinstance(obj, list):
+        return [_freeze(v) for v in obj]
+    if isinstance(obj, tuple):
+        return tuple(_freeze(v) for v in obj)
+    if isinstance(obj, dict):
+        return {k: _freeze(v) for k, v in obj.items()}
+    return obj
+
+
 def repeat_call(ctx, monitor, fn, args, names, sig=None, equal=None):
     """History monitor for pure functions: call fn twice with the SAME argument objects.
 
@@ -232,14 +269,14 @@ def repeat_call(ctx, monitor, fn, args, names, sig=None, equal=None):
     from . import snap
 
     before = [snap.digest(a) for a in args]
-    first = ctx.call(fn, *args)
+    first = ctx.call(fn, *args, freeze=False)
     if first is FAILED:
         return FAILED
     changed = [names[i] for i, a in enumerate(args) if snap.digest(a) != before[i]]
     fname = getattr(fn, "__name__", "fn")
     ctx.check(monitor, not changed, sig=(fname, "args-unchanged") + tuple(sig or ()), nt=True, mech=f"{fname}:modifies-caller-argument[{','.join(changed) or '-'}]",
               detail={"function": fname, "modified": changed})
-    second = ctx.call(fn, *args)
+    second = ctx.call(fn, *args, freeze=False)
     if second is FAILED:
         ctx.check(monitor, False, sig=(fname, "second-call") + tuple(sig or ()), nt=True, mech=f"{fname}:second-identical-call-fails", detail={"function": fname, "modified": changed})
         return first
